@@ -314,6 +314,24 @@ where
             want_u.as_ref().map_err(|s| *s)
         ));
     }
+    // the verdict is a function of the BYTES, not of where the EncodedPoint value came from: whatever the
+    // unchecked decoder returned is re-encoded by the crate and the checked decoder is applied to that very value
+    if let Ok(aff) = G::decode_bytes(compressed, &bytes, false)? {
+        for via_from_affine in [false, true] {
+            let (b2, res) = G::roundtrip_value(&aff, compressed, true, via_from_affine)?;
+            if b2 == bytes && res.is_ok() != want.is_ok() {
+                return Err(format!(
+                    "{}: checked decoding of {} is {} when the bytes are copied into an empty EncodedPoint but {} on the value the encoder ({}) returned for the unchecked-decoded point: the verdict depends on the provenance of the value, not on its bytes",
+                    fmt_name(c.fmt),
+                    hex(&bytes),
+                    if want.is_ok() { "accepted" } else { "rejected" },
+                    if res.is_ok() { "accepted" } else { "rejected" },
+                    if via_from_affine { "from_affine" } else { "into_(un)compressed" }
+                ));
+            }
+            info.class("provenance:re-encoded-value-checked");
+        }
+    }
     Ok(())
 }
 
@@ -377,7 +395,7 @@ fn check_dec_seq(c: &DecSeq, info: &mut Info) -> Result<(), String> {
 pub fn def() -> PropDef {
     PropDef {
         id: "C04",
-        rule: "byte strings of length 48/96/96/192 for the four formats: valid encodings of every point class (identity, subgroup, full-curve, each small prime order dividing the cofactor, order l*r, walks P+[k]G) and uniform / all-zero bytes, then 0..2 edits (force each of the 8 flag combinations, replace one 48-byte coordinate component by q+k, q-1-k, 2^381, 2^381-1, 0, small, uniform; +-delta; bit flip; x without a square root; x of another point; flip sort flag). Oracle: model decoder returning the accepted point or the first failing stage in the order form flag, infinity/sort flags, coordinate range, curve, subgroup; checked and unchecked variants; no panic. Non-trivial = input passes the form-flag stage; distinct = distinct cases",
+        rule: "byte strings of length 48/96/96/192 for the four formats: valid encodings of every point class (identity, subgroup, full-curve, each small prime order dividing the cofactor, order l*r, walks P+[k]G) and uniform / all-zero bytes, then 0..2 edits (force each of the 8 flag combinations, replace one 48-byte coordinate component by q+k, q-1-k, 2^381, 2^381-1, 0, small, uniform; +-delta; bit flip; x without a square root; x of another point; flip sort flag). Oracle: model decoder returning the accepted point or the first failing stage in the order form flag, infinity/sort flags, coordinate range, curve, subgroup; checked and unchecked variants; no panic; for every string the unchecked decoder accepts, the checked decoder applied to the crate's own re-encoding of that point (the EncodedPoint value, not a copy of its bytes) must give the verdict of the bytes. Non-trivial = input passes the form-flag stage; distinct = distinct cases",
         needs_pairing: false,
         subs: vec![
             Box::new(Sub { name: "decoders", rule: "four decoders, checked and unchecked, vs model decoder (accepted point or first failing stage)", quick: 24_000, thorough: 250_000, strategy: || boxed(dec_case_strategy()), check: check_dec_any }),
